@@ -30,9 +30,11 @@ def _get_source(self, environment, template):
 
 DSDLTemplateLoader.get_source = _get_source  # type: ignore
 
-ROOT = str(pathlib.Path(__file__).resolve().parent.parent / "data" / "ns1" / "vt") if "__file__" in globals() else "/verif/data/ns1/vt"
+NSDIR = os.environ.get("C20_NS", "ns1/vt")      # ns1/vt | ns4/hd (has a namespace-documentation type `_`)
+ROOT = str(pathlib.Path(__file__).resolve().parent.parent / "data" / NSDIR) if "__file__" in globals() else "/verif/data/" + NSDIR
 if not os.path.isdir(ROOT):
-    ROOT = "/verif/data/ns1/vt"
+    ROOT = "/verif/data/" + NSDIR
+ROOTNS = NSDIR.split("/")[-1]
 _types = pydsdl.read_namespace(ROOT, [])
 _FS = [FakeFS()]
 
@@ -54,7 +56,7 @@ def _instances_of_A() -> typing.List[typing.Any]:
 
     def walk(t: typing.Any) -> None:
         if isinstance(t, pydsdl.CompositeType):
-            if t.full_name == "vt.A" and not any(t is x for x in seen):
+            if t.full_name in (ROOTNS + ".A", ROOTNS + "._") and not any(t is x for x in seen):
                 seen.append(t)
             for a in t.attributes:
                 walk(a.data_type)
@@ -72,9 +74,12 @@ MAXLEN = int(os.environ.get("C20_MAXLEN", "2"))
 ONLY_TYPE_PAGE = os.environ.get("C20_SCOPE", "type") == "type"
 
 
-def gen(type_doc: str, field_doc: str) -> typing.Dict[str, str]:
+def gen(type_doc: str, field_doc: str, ns_doc: str = "plain") -> typing.Dict[str, str]:
     _FS[0] = FakeFS()
     for t in _AS:
+        if t.short_name == "_":
+            t._doc = ns_doc
+            continue
         t._doc = type_doc
         t.fields_except_padding[0]._doc = field_doc
     G._env.update_nunavut_globals(*G.language_context.get_target_language().get_support_module(), False, False)
@@ -83,7 +88,7 @@ def gen(type_doc: str, field_doc: str) -> typing.Dict[str, str]:
             if t.short_name == "A":
                 G._generate_type(t, p, False, True)           # the type's own page (type_base.j2)
         for n, p in G.namespace.get_all_namespaces():
-            if n.full_namespace == "vt":
+            if n.full_namespace == ROOTNS:
                 G._generate_type(n, p, False, True)           # the namespace page (Namespace.j2 -> type_info.j2: nested and field docs)
     else:
         G.generate_all()
@@ -92,6 +97,7 @@ def gen(type_doc: str, field_doc: str) -> typing.Dict[str, str]:
 
 _BASE_T = gen(MARK, "plain")
 _BASE_F = gen("plain", MARK)
+_BASE_N = gen("plain", "plain", MARK)
 
 
 def _inert(x: str, d: str) -> bool:
@@ -166,5 +172,46 @@ def field_doc_is_inert(doc: str) -> bool:
     post: _
     """
     doc = _realise(doc)
+    out = gen("plain", doc)
+    return all(_page_ok(base, out[k], doc) for k, base in _BASE_F.items())
+
+
+# ------------------------------------------------------------------------------------------------ whole tokens
+# character references and tags cannot be spelled within the 2-3 character bound above: documentation made of up to two whole TOKENS
+# (raw markup characters, character references -- a filter that un-escapes would turn them into markup --, tags, plain text)
+TOKENS = ["<", ">", "&", chr(34), chr(39), "a", "&lt;", "&gt;", "&amp;", "&#60;", "&lt;b&gt;", "<b>", "x y"]
+FIRST_TOK = int(os.environ.get("C20_TOK", "-1"))          # split by first token over processes
+
+
+def _tokdoc(i: int, j: int) -> str:
+    return TOKENS[i] + (TOKENS[j] if j >= 0 else "")
+
+
+def namespace_doc_tokens_are_inert(i: int, j: int) -> bool:
+    """
+    pre: 0 <= i < len(TOKENS) and -1 <= j < len(TOKENS) and (FIRST_TOK < 0 or i == FIRST_TOK)
+    post: _
+    """
+    doc = _tokdoc(_realise(i), _realise(j))
+    out = gen("plain", "plain", doc)
+    return all(_page_ok(base, out[k], doc) for k, base in _BASE_N.items())
+
+
+def type_doc_tokens_are_inert(i: int, j: int) -> bool:
+    """
+    pre: 0 <= i < len(TOKENS) and -1 <= j < len(TOKENS) and (FIRST_TOK < 0 or i == FIRST_TOK)
+    post: _
+    """
+    doc = _tokdoc(_realise(i), _realise(j))
+    out = gen(doc, "plain")
+    return all(_page_ok(base, out[k], doc) for k, base in _BASE_T.items())
+
+
+def field_doc_tokens_are_inert(i: int, j: int) -> bool:
+    """
+    pre: 0 <= i < len(TOKENS) and -1 <= j < len(TOKENS) and (FIRST_TOK < 0 or i == FIRST_TOK)
+    post: _
+    """
+    doc = _tokdoc(_realise(i), _realise(j))
     out = gen("plain", doc)
     return all(_page_ok(base, out[k], doc) for k, base in _BASE_F.items())
